@@ -322,6 +322,9 @@ def innermost_frame_info(exc):
     return best
 
 
+TIMEOUT_FIRED = False
+
+
 class InnerTimeout(BaseException):     # BaseException: the library's blanket 'except Exception' must not swallow it
     pass
 
@@ -337,6 +340,8 @@ class time_limit:
         import time
 
         def handler(signum, frame):
+            global TIMEOUT_FIRED
+            TIMEOUT_FIRED = True          # wall-clock dependent outcome: excluded from determinism comparisons
             raise InnerTimeout()
         self.t0 = time.time()
         self.old_handler = signal.signal(signal.SIGALRM, handler)
